@@ -97,7 +97,7 @@ def run(chk):
             chk.ob('ctor', ty + '::new_truncate keeps exactly the low %d bits' % width, single('', o) and same(inner(o[0].val), bv(16, sl('v', 0, width), (0, 16 - width))), 'returns %r' % (o,), fn_site(I, fnn + '::new_truncate'))
             val = I.sym_value(adt(fnn), 'x')
             for t, w in (('u16', 16), ('u32', 32), ('u64', 64), ('usize', 64)):
-                fn_ = '%s<impl core::convert::From<%s> for %s>::from' % (PT, fnn, t)
+                fn_ = '<%s as core::convert::From<%s>>::from' % (t, fnn)
                 if fn_ not in I.fn:
                     chk.unproven('ctor', 'From<%s> for %s' % (ty, t), 'impl not found (anchor lost)')
                     continue
